@@ -44,7 +44,12 @@ def eprog(prog, theta):
             p0 += f" + (if b{i-1} then {qc(s['dep'])} else 0)"
         p1 = f"{qc(s['b'])} * {qc(0.25)}"
         est = {"enum": "Enum", "penum": "Enum", "reinforce": "Reinforce", "mvd": "Mvd"}[s["est"]]
-        return f"(EFlip {est} (({p0})%Qc, ({p1})%Qc) (fun b{i} : bool => {go(i + 1, bits + [i])}))"
+        rest = f"(fun b{i} : bool => {go(i + 1, bits + [i])})"
+        site = f"(EFlip {est} (({p0})%Qc, ({p1})%Qc) {rest})"
+        if s.get("incond") and i > 0:
+            # inside a cond branch taken when the previous outcome is True; otherwise the value is false
+            return f"(if b{i-1} then {site} else ({rest} false))"
+        return site
     return go(0, [])
 
 
@@ -88,6 +93,8 @@ def acase(c):
         table = "[" + "; ".join(f"({bl(b_)}, ({qc(v[0])}, {qc(v[1])}))" for b_, v in c["table"]) + "]"
         runs = "[" + "; ".join(f"({bl(r['bits'])}, {qq(r['p'])}, {qq(r['t'])})" for r in c["runs"]) + "]"
         return f"CMvdVec {ps} {table} {runs}"
+    if c["kind"] == "unseeded_repeat":
+        return f"CFlagA {'true' if c['ok'] else 'false'}"
     if c["kind"] == "consistency":
         return f"CFlagA {'true' if c['ok'] else 'false'}"
     if c["kind"] == "canon":
@@ -160,6 +167,7 @@ def run(ctx):
             + len({json.dumps({k: v for k, v in c.items() if k not in ("p", "t")}, sort_keys=True) for c in cases if c["kind"] == "reparam" and c["L"] >= 2})
         hist = {"estimators": Counter(s["est"] for c in cases if c["kind"] == "adev" for s in c["prog"]["sites"]),
                 "sites": Counter(len(c["prog"]["sites"]) for c in cases if c["kind"] == "adev"),
+                "sites_inside_cond": sum(1 for c in cases if c["kind"] == "adev" for s_ in c["prog"]["sites"] if s_.get("incond")),
                 "reparam": Counter(("uniform" if c["uniform"] else "normal") + f":L{c['L']}:mu{int(c['mu_vec'])}sg{int(c['sg_vec'])}" for c in cases if c["kind"] == "reparam"),
                 "consistency": Counter(c["prim"] for c in cases if c["kind"] == "consistency"),
                 "catenum": sum(1 for c in cases if c["kind"] == "catenum"), "mvdvec": sum(1 for c in cases if c["kind"] == "mvdvec"),
@@ -168,11 +176,11 @@ def run(ctx):
                 "consistency_min_pvalues": sorted(c["pvalue"] for c in cases if c["kind"] == "consistency" and "pvalue" in c)[:4],
                 "errors": Counter(c.get("err", "")[:70] for c in cases if "err" in c)}
         rule = ("random expectation programs of 1-3 flip sites (enumeration, parallel enumeration, REINFORCE, measure-valued derivative; theta-dependent "
-                "probabilities, optionally depending on the previous outcome; leaf values with theta terms and a cross term); every outcome vector of the "
+                "probabilities, optionally depending on the previous outcome, optionally placed inside a lax.cond branch taken when the previous outcome is True; leaf values with theta terms and a cross term); every outcome vector of the "
                 "sampled sites is scripted; per-outcome (primal, tangent) compared with the model's estimator, their probability-weighted mean with the exact "
                 "dual expectation; enumeration-only programs also under jit(seed(.)), grad_estimate and estimate; plus normal_reparam / uniform_reparam sites with scalar or "
                 "batched location and scale, scripted noise, followed by a lane-coupling continuation: primal and tangent compared with the pathwise dual; "
-                "plus batched flip_mvd (2-3 lanes, every outcome vector scripted; lane-wise measure-valued estimator and its exact mean); plus categorical_enum_parallel (rational masses in theta, optionally followed by flip_enum; jvp_estimate, estimate, grad_estimate exact); normal_reparam with a sample_shape; multivariate_normal_diag_reparam; "
+                "plus eager unseeded repeated calls of a program with a measure-valued site followed by a sampled site (400 gradient estimates, mean within 5 standard errors of the exact derivative); plus batched flip_mvd (2-3 lanes, every outcome vector scripted; lane-wise measure-valued estimator and its exact mean); plus categorical_enum_parallel (rational masses in theta, optionally followed by flip_enum; jvp_estimate, estimate, grad_estimate exact); normal_reparam with a sample_shape; multivariate_normal_diag_reparam; "
                 "plus multivariate_normal_reparam through the built-in full-covariance / mean-field families with scripted noise (x = mean + chol @ eps, value and directional derivative in exact rationals); "
                 "plus sampler/scorer consistency of every sampled primitive under seed (3000 vectorised draws, goodness of fit against the density the primitive is "
                 "scored with; fails below p = 1e-6); non-trivial = distinct flip program with >=2 sites or batched reparameterised site")
